@@ -642,6 +642,9 @@ func TestProp(t *testing.T) {
 	if err := initSpecs(); err != nil {
 		t.Fatal(err)
 	}
+	if len(extraFields) > 0 {
+		t.Logf("payload struct fields unknown to the specification tables, left at their zero value: %v", extraFields)
+	}
 
 	const oracle = "Oracle: MarshalBinary neither panics nor errs; len(bytes) == Command.Size() == 1 + payload.Size() == CID + the payload length of the TS003/4/5/6 definition; " +
 		"Command.UnmarshalBinary(direction, bytes) gives the same CID and a payload equal field by field (nil == empty byte string). "
